@@ -15,13 +15,16 @@ import (
 	"hash/fnv"
 	"runtime"
 	"sync"
+	"sync/atomic"
 	"time"
 
 	"github.com/WuKongIM/WuKongIM/internal/verifsim/simkit"
 	ch "github.com/WuKongIM/WuKongIM/pkg/channel"
+	"github.com/WuKongIM/WuKongIM/pkg/channel/replication"
 	channelstore "github.com/WuKongIM/WuKongIM/pkg/channel/store"
 	"github.com/WuKongIM/WuKongIM/pkg/cluster/channels"
 	clusternet "github.com/WuKongIM/WuKongIM/pkg/cluster/net"
+	goruntimeregistry "github.com/WuKongIM/WuKongIM/pkg/goroutine"
 )
 
 // decisions for a parked RPC
@@ -89,6 +92,10 @@ func (c *simCaller) Call(ctx context.Context, nodeID uint64, serviceID uint8, pa
 	if h == nil {
 		return nil, errSimDropped
 	}
+	if isAppendRPC(serviceID) {
+		w.svcEnter(to) // the forwarded append runs Service.Append on the target
+		defer w.svcLeave(to)
+	}
 	resp, err := h.HandleRPC(ctx, append([]byte(nil), payload...))
 	if d == rpcDropResponse {
 		return nil, errSimDropped
@@ -138,6 +145,7 @@ type cnode struct {
 	view     int // index into cworld.metas (0 = no metadata yet)
 	applied  int // highest version explicitly applied to the runtime by the simulator
 	isolated bool
+	quorumRT *replication.Runtime // production composition only
 }
 
 type cworld struct {
@@ -149,6 +157,132 @@ type cworld struct {
 	nodes map[ch.NodeID]*cnode
 	ids   []ch.NodeID
 	metas []ch.Meta // authoritative history; metas[0] unused
+
+	quorum bool
+	// svcIn counts the calls currently inside one node's channels.Service that
+	// can take its per-channel metadata-apply mutex (ApplyMeta, Append,
+	// AppendBatch, a forwarded append being handled). With the quorum log the
+	// leader holds that mutex while Install runs its network rounds, and a
+	// second caller would wait on a sync.Mutex, which never lets the bubble
+	// become quiescent. In quorum mode the simulator therefore admits one such
+	// call per node at a time (reads, retention and runtime-surface calls do not
+	// take the mutex).
+	svcIn map[ch.NodeID]int
+	// inflightFn tells whether the last observation showed an append proposal in flight on a node's reactor
+	inflightFn func(ch.NodeID) bool
+}
+
+func (w *cworld) svcEnter(n ch.NodeID) {
+	w.mu.Lock()
+	w.svcIn[n]++
+	w.mu.Unlock()
+}
+
+func (w *cworld) svcLeave(n ch.NodeID) {
+	w.mu.Lock()
+	w.svcIn[n]--
+	w.mu.Unlock()
+}
+
+// svcBusy reports whether the simulator must keep further metadata-lock takers
+// away from node n. Besides the service mutex there is the quorum log's own
+// per-channel mutex: Install and Commit hold it across their network rounds and
+// the reactor does submit an Install (new authority) while a Commit or an older
+// Install is still out. In production the second call simply waits; inside a
+// bubble a goroutine waiting on a sync.Mutex keeps the world from ever becoming
+// quiescent. So in quorum mode nothing that can carry a new authority to node n
+// (ApplyMeta, Append through the service, a forwarded append) is started while
+// n's log has a round in flight, and n's metadata view only moves while no
+// service call is inside n. The mutex serialises those calls in production
+// too; what is lost is the reactor seeing the new authority before the old
+// round's result (covered in pull/ack mode and by machinesim).
+func (w *cworld) svcBusy(n ch.NodeID) bool {
+	if !w.quorum {
+		return false
+	}
+	w.mu.Lock()
+	in := w.svcIn[n]
+	w.mu.Unlock()
+	return in > 0 || w.logBusy(n)
+}
+
+// svcInside: a harness-visible call is inside n's service (its retries resolve n's view).
+func (w *cworld) svcInside(n ch.NodeID) bool {
+	if !w.quorum {
+		return false
+	}
+	w.mu.Lock()
+	defer w.mu.Unlock()
+	return w.svcIn[n] > 0
+}
+
+// logBusy: node n's quorum log has (or may have) a round in flight. Call at quiescence only.
+func (w *cworld) logBusy(n ch.NodeID) bool {
+	if !w.quorum {
+		return false
+	}
+	if w.inflightFn != nil && w.inflightFn(n) {
+		return true
+	}
+	for _, p := range w.sw.Pending() {
+		if info, ok := p.Info.(*rpcInfo); ok && info.from == n && info.service == clusternet.RPCChannelQuorumExchange {
+			return true
+		}
+	}
+	return false
+}
+
+func isAppendRPC(service uint8) bool {
+	return service == clusternet.RPCChannelAppend || service == clusternet.RPCChannelAppendBatch
+}
+
+// bootstrap applies the first metadata on every node. With the quorum log the
+// leader's ApplyMeta returns only after Install probed its peers, so the calls
+// run as goroutines while every exchange is delivered in canonical order.
+func (w *cworld) bootstrap(m ch.Meta) error {
+	if !w.quorum {
+		for _, id := range w.ids {
+			if err := w.nodes[id].svc.ApplyMeta(cloneMeta(m)); err != nil {
+				return fmt.Errorf("node %d: %w", id, err)
+			}
+		}
+		return nil
+	}
+	errs := make([]error, len(w.ids))
+	var done sync.WaitGroup
+	var finished atomic.Int32
+	for i, id := range w.ids {
+		i, id := i, id
+		done.Add(1)
+		go func() {
+			defer done.Done()
+			errs[i] = w.nodes[id].svc.ApplyMeta(cloneMeta(m))
+			finished.Add(1)
+		}()
+	}
+	delivered := 0
+	for round := 0; round < 400 && int(finished.Load()) < len(w.ids); round++ {
+		simkit.Wait()
+		pend := w.sw.Pending()
+		if len(pend) == 0 {
+			time.Sleep(2 * time.Millisecond)
+			continue
+		}
+		w.sw.Release(pend[0], rpcDeliver)
+		delivered++
+	}
+	simkit.Wait()
+	if int(finished.Load()) < len(w.ids) {
+		return fmt.Errorf("bootstrap did not finish after %d delivered exchanges", delivered)
+	}
+	done.Wait()
+	w.r.Logf("bootstrap: first metadata installed after %d delivered RPCs", delivered)
+	for i, err := range errs {
+		if err != nil {
+			return fmt.Errorf("node %d: %w", w.ids[i], err)
+		}
+	}
+	return nil
 }
 
 func newWorld(r *simkit.Run, n int, mkStore func(id ch.NodeID) (channelstore.Factory, func())) (*cworld, error) {
@@ -158,14 +292,63 @@ func newWorld(r *simkit.Run, n int, mkStore func(id ch.NodeID) (channelstore.Fac
 // newWorldBatchWait is newWorld with an explicit leader append flush window
 // (a longer window keeps accepted appends queued across scheduler steps).
 func newWorldBatchWait(r *simkit.Run, n int, mkStore func(id ch.NodeID) (channelstore.Factory, func()), batchWait time.Duration) (*cworld, error) {
-	w := &cworld{r: r, sw: simkit.NewWorld(r), nodes: map[ch.NodeID]*cnode{}, metas: []ch.Meta{{}}}
+	return newWorldOpts(r, n, mkStore, worldOpts{batchWait: batchWait})
+}
+
+// worldOpts selects the composition of every node.
+type worldOpts struct {
+	batchWait time.Duration
+	// quorum wires the production default of pkg/cluster/node_defaults.go:
+	// replication.NewStoreAdapter + channels.NewQuorumPeerLink +
+	// replication.NewRuntime, QuorumLog: runtime.Log() into channels.NewService
+	// and the quorum exchange gateway registered next to the service handlers.
+	// The exchange RPC travels through the same simulated caller (real codec,
+	// parked at the scheduler) as every other channel RPC. Without it the
+	// reactor uses the transitional pull/ack replication.
+	quorum bool
+}
+
+func newWorldOpts(r *simkit.Run, n int, mkStore func(id ch.NodeID) (channelstore.Factory, func()), o worldOpts) (*cworld, error) {
+	w := &cworld{r: r, sw: simkit.NewWorld(r), nodes: map[ch.NodeID]*cnode{}, metas: []ch.Meta{{}}, quorum: o.quorum, svcIn: map[ch.NodeID]int{}}
 	w.id = ch.ChannelID{ID: "room", Type: 2}
 	w.key = ch.ChannelKeyForID(w.id)
+	batchWait := o.batchWait
 	for i := 1; i <= n; i++ {
 		id := ch.NodeID(i)
 		nd := &cnode{id: id, handlers: map[uint8]clusternet.Handler{}}
 		nd.fac, nd.closeFac = mkStore(id)
+		caller := &simCaller{w: w, from: id}
+		var quorumLog replication.DurableQuorumLog
+		if o.quorum {
+			storeAdapter, err := replication.NewStoreAdapter(replication.StoreAdapterConfig{
+				Factory: nd.fac, MaxBatchItems: replication.MaxExchangeBatchItems, MaxBatchBytes: replication.MaxExchangeBatchBytes,
+			})
+			if err != nil {
+				return nil, err
+			}
+			peerLink, err := channels.NewQuorumPeerLink(id, caller)
+			if err != nil {
+				return nil, err
+			}
+			rt, err := replication.NewRuntime(replication.RuntimeConfig{
+				LocalNode: id, Store: storeAdapter, Link: peerLink, Goroutines: goruntimeregistry.New(), MaxChannels: 64, MaxVoters: n,
+				// knobs that matter inside a bubble (see quorumsim): one flight per
+				// peer target (more flights re-arm an idle drain worker in a tight
+				// loop), pools large enough that parked exchanges never saturate
+				// them, small admission queues, timeouts that fit the simulated-time cap
+				LocalWorkers: 8, PeerWorkers: 32, PeerTargetFlight: 1, RepairWorkers: 2,
+				BatchItems: 16, QueueItems: 64, TargetItems: 32,
+				ExchangeTimeout: 200 * time.Millisecond, LocalTimeout: 200 * time.Millisecond, RecoveryTimeout: 600 * time.Millisecond,
+				CloseTimeout: 2 * time.Second,
+			})
+			if err != nil {
+				return nil, err
+			}
+			nd.quorumRT = rt
+			quorumLog = rt.Log()
+		}
 		svc, err := channels.NewService(channels.Config{
+			QuorumLog:    quorumLog,
 			LocalNode:    id,
 			ReactorCount: 1,
 			MailboxSize:  64, // default 1024 per priority queue and per pool queue costs ~0.2 s of allocation per node
@@ -173,7 +356,7 @@ func newWorldBatchWait(r *simkit.Run, n int, mkStore func(id ch.NodeID) (channel
 			StoreAppendWorkers: 4, StoreApplyWorkers: 4, RPCWorkers: 16,
 			AppendBatchMaxWait: batchWait,
 			Store:              nd.fac,
-			Transport:          channels.NewTransportClient(&simCaller{w: w, from: id}),
+			Transport:          channels.NewTransportClient(caller),
 			MetaSource:         metaView{w: w, n: nd},
 		})
 		if err != nil {
@@ -181,6 +364,9 @@ func newWorldBatchWait(r *simkit.Run, n int, mkStore func(id ch.NodeID) (channel
 		}
 		nd.svc = svc
 		channels.RegisterServiceHandlersOn(registrar{nd}, svc)
+		if nd.quorumRT != nil {
+			channels.RegisterQuorumExchangeHandlerOn(registrar{nd}, channels.NewQuorumExchangeGateway(nd.quorumRT.ExchangeServer()))
+		}
 		w.nodes[id] = nd
 		w.ids = append(w.ids, id)
 	}
@@ -207,6 +393,12 @@ func (w *cworld) close() {
 	simkit.Wait()
 	for _, id := range w.ids {
 		_ = w.nodes[id].svc.Close()
+	}
+	simkit.Wait()
+	for _, id := range w.ids {
+		if rt := w.nodes[id].quorumRT; rt != nil {
+			_ = rt.Close(context.Background())
+		}
 	}
 	simkit.Wait()
 	for _, id := range w.ids {
